@@ -206,14 +206,15 @@ def secGeom (v : Nat) (t : Nat) (gs : List GeomRec) : Sec :=
 def secCad (v : Nat) (cad : Bytes) : Sec :=
   { kw := 126, declLen := headerSize v + cad.length, body := encInt v cad.length ++ cad }
 
-/-- the sections in writing order; a section is written only when its count is positive -/
-def sections (v : Nat) (m : MeshFile) : List Sec :=
-  [secDim v m] ++
-  (if m.nodes.isEmpty then [] else [secVerts v m]) ++
-  ((cellInfos.zip m.cells).filter (fun p => !p.2.isEmpty)).map (fun p => secCells v p.1 p.2) ++
-  (([0, 1, 2].map fun t => (t, geomsOf t m.geoms)).filter (fun p => !p.2.isEmpty)).map
-    (fun p => secGeom v p.1 p.2) ++
-  (if m.cad.isEmpty then [] else [secCad v m.cad])
+/-- every section the writer knows, in writing order, with "is it written" (count positive) -/
+def master (v : Nat) (m : MeshFile) : List (Bool × Sec) :=
+  [(true, secDim v m), (!m.nodes.isEmpty, secVerts v m)] ++
+  (cellInfos.zip m.cells).map (fun p => (!p.2.isEmpty, secCells v p.1 p.2)) ++
+  [0, 1, 2].map (fun t => (!(geomsOf t m.geoms).isEmpty, secGeom v t (geomsOf t m.geoms))) ++
+  [(!m.cad.isEmpty, secCad v m.cad)]
+
+/-- the sections actually written -/
+def sections (v : Nat) (m : MeshFile) : List Sec := ((master v m).filter (·.1)).map (·.2)
 
 /-- sections laid out from file offset `pos`; then `End` (keyword 54, next position 0) -/
 def layout (v : Nat) : Nat → List Sec → Bytes
